@@ -450,6 +450,15 @@ pub struct RelayScn {
     /// D1 >= D2 >= ... ; hop j is presented in `fmts[j]` (the gateway transcodes between hops)
     pub selections: Vec<Map<String, Value>>,
     pub fmts: Vec<Fmt>,
+    /// per hop: the relay holder object first serves this (narrower) selection, then the hop's own
+    #[serde(default)]
+    pub warmups: Vec<Option<Map<String, Value>>>,
+    /// per hop: an unrelated credential is loaded into a holder first (other traffic in the process)
+    #[serde(default)]
+    pub other_traffic: Vec<bool>,
+    /// per hop (>= 2): an earlier hop is repeated afterwards on a fresh holder and must give what it gave
+    #[serde(default)]
+    pub repeat_earlier: Vec<Option<usize>>,
 }
 
 pub fn gen_c15(rng: &mut Rng, _tier: Tier) -> Result<Value, serde_json::Error> {
@@ -489,7 +498,10 @@ pub fn gen_c15(rng: &mut Rng, _tier: Tier) -> Result<Value, serde_json::Error> {
         let last = *fmts.last().unwrap();
         fmts.push(if rng.chance(1, 3) { last.other() } else { last });
     }
-    serde_json::to_value(RelayScn { kind: "relay".into(), check: "C15".into(), entropy_seed: rng.next_u64(), clock_base: now, key, alg, cred, selections, fmts })
+    let warmups: Vec<Option<Map<String, Value>>> = selections.iter().map(|d| if rng.chance(1, 3) { let pm = 300 + rng.below(500); Some(gen::narrow_selection(rng, d, pm)) } else { None }).collect();
+    let other_traffic: Vec<bool> = selections.iter().map(|_| rng.chance(1, 3)).collect();
+    let repeat_earlier: Vec<Option<usize>> = (0..selections.len()).map(|j| if j >= 1 && rng.chance(1, 2) { Some(rng.usize(j)) } else { None }).collect();
+    serde_json::to_value(RelayScn { kind: "relay".into(), check: "C15".into(), entropy_seed: rng.next_u64(), clock_base: now, key, alg, cred, selections, fmts, warmups, other_traffic, repeat_earlier })
 }
 
 pub fn execute_c15(scn_v: &Value) -> RunReport {
@@ -522,6 +534,10 @@ pub fn execute_c15(scn_v: &Value) -> RunReport {
     // what the previous hop returned, byte for byte: handed on verbatim when the next hop uses the
     // same format (the gateway only re-serialises when it has to transcode)
     let mut prev_raw: String = sdjwt.clone();
+    // an unrelated credential (other traffic handled by the same process)
+    let other = w.issue(n_i, &ih, &scn.key, &json!({"iss": "https://issuer-a.example", "exp": scn.clock_base.max(1_000_000_000) + 86400, "other": {"a": 1, "b": [1, 2]}}), &Strat::All, None, false, c.fmt);
+    // (input, format, selection, disclosure set it produced) of every relay step so far
+    let mut steps: Vec<(String, Fmt, Map<String, Value>, BTreeSet<String>)> = Vec::new();
     for (j, sel) in scn.selections.iter().enumerate() {
         let fmt_j = scn.fmts.get(j).copied().unwrap_or(c.fmt);
         // the gateway hands the previous hop's message over in this hop's format
@@ -537,8 +553,21 @@ pub fn execute_c15(scn_v: &Value) -> RunReport {
                 }
             }
         };
+        if scn.other_traffic.get(j).copied().unwrap_or(false) {
+            if let Out::Ok(o) = &other {
+                let _ = w.holder_new(n_hr, o, c.fmt);
+                cx.rep.count("fault.other_traffic_in_process");
+            }
+        }
         let relay = match w.holder_new(n_hr, &input, fmt_j) {
-            Out::Ok(h) => w.present(n_hr, &h, sel, None),
+            Out::Ok(h) => {
+                // the same holder object may serve another (narrower) request first
+                if let Some(Some(wsel)) = scn.warmups.get(j) {
+                    let _ = w.present(n_hr, &h, wsel, None);
+                    cx.rep.count("fault.holder_object_reused_within_hop");
+                }
+                w.present(n_hr, &h, sel, None)
+            }
             Out::Err { variant, msg } => Out::Err { variant, msg },
             Out::Panic(p) => Out::Panic(p),
         };
@@ -602,6 +631,27 @@ pub fn execute_c15(scn_v: &Value) -> RunReport {
                 }
             }
         }
+        // history independence: an earlier hop repeated now on a fresh holder gives what it gave then
+        if let (Some(r), None) = (&mr, &viol) {
+            steps.push((input.clone(), fmt_j, sel.clone(), r.disclosures.iter().cloned().collect()));
+            if let Some(Some(e)) = scn.repeat_earlier.get(j) {
+                if let Some((inp, f, s_, want)) = steps.get(*e).cloned() {
+                    let again = match w.holder_new(n_hr, &inp, f) {
+                        Out::Ok(h) => w.present(n_hr, &h, &s_, None),
+                        Out::Err { variant, msg } => Out::Err { variant, msg },
+                        Out::Panic(p) => Out::Panic(p),
+                    };
+                    cx.rep.evaluations += 1;
+                    cx.rep.count("oracle.c15.earlier_hop_repeated");
+                    if !again.is_panic() {
+                        let got: Option<BTreeSet<String>> = again.ok().and_then(|s| Message::parse(s, f)).map(|m| m.disclosures.into_iter().collect());
+                        if got.as_ref() != Some(&want) {
+                            viol = Some(("same-disclosure-set".into(), "c15:earlier_hop_differs_when_repeated".into(), json!({"hop": j, "repeated_hop": e, "then": want, "now": got, "now_result": again.describe()})));
+                        }
+                    }
+                }
+            }
+        }
         cx.states.insert(hash_str(&format!("relay|{}|{}|{}|{}|{}", j, fmt_j.name(), relay.class(), direct.class(), c.decoys)));
         if j >= 1 {
             cx.nontrivial.insert(mix(&[hist_hash, j as u64]));
@@ -615,6 +665,9 @@ pub fn execute_c15(scn_v: &Value) -> RunReport {
                 let mut red = scn.clone();
                 red.selections.truncate(j + 1);
                 red.fmts.truncate(j + 1);
+                red.warmups.truncate(j + 1);
+                red.other_traffic.truncate(j + 1);
+                red.repeat_earlier.truncate(j + 1);
                 let mut trigger = BTreeMap::new();
                 trigger.insert("hop".to_string(), json!(j));
                 trigger.insert("format".to_string(), json!(fmt_j.name()));
